@@ -502,6 +502,66 @@ Denote(st, t) ==     \* defined for texts in the language
       [] st = 4 -> IntervalDenoteG(Groups(t), 0)
       [] st = 5 -> VolumeDenoteG(Groups(t))
 
+(* Wide typed values.  Intervals and volumes are unsigned int in the code and TLC's integers are 32-bit
+   signed, so values from 2^31 up to 4294967295 - among them the largest count of each unit that still
+   fits - are handled as sequences of decimal digit codes, with schoolbook arithmetic on single digits.
+   A wide abstract value is a sequence of components << <<count digits, unit>>, .. >> (units as above). *)
+RECURSIVE DNorm(_)
+DNorm(d) == IF Len(d) > 1 /\ d[1] = 48 THEN DNorm(Tail(d)) ELSE IF d = <<>> THEN <<48>> ELSE d
+RECURSIVE DAddRev(_, _, _)
+DAddRev(a, b, carry) ==      \* a, b least significant digit first
+    IF a = <<>> /\ b = <<>> THEN (IF carry = 0 THEN <<>> ELSE <<48 + carry>>)
+    ELSE LET x == (IF a = <<>> THEN 0 ELSE a[1] - 48) + (IF b = <<>> THEN 0 ELSE b[1] - 48) + carry
+         IN <<48 + (x % 10)>> \o DAddRev(IF a = <<>> THEN a ELSE Tail(a), IF b = <<>> THEN b ELSE Tail(b), x \div 10)
+Rev(q) == [i \in 1..Len(q) |-> q[Len(q) + 1 - i]]
+DAdd(a, b) == DNorm(Rev(DAddRev(Rev(a), Rev(b), 0)))
+RECURSIVE DMulDigitRev(_, _, _)
+DMulDigitRev(a, m, carry) ==
+    IF a = <<>> THEN (IF carry = 0 THEN <<>> ELSE <<48 + carry>>)
+    ELSE LET x == (a[1] - 48) * m + carry IN <<48 + (x % 10)>> \o DMulDigitRev(Tail(a), m, x \div 10)
+RECURSIVE DMul(_, _)
+DMul(a, b) ==                \* b's digits from the most significant: acc * 10 + a * digit
+    IF b = <<>> THEN <<48>>
+    ELSE DAdd(DNorm(DMul(a, SubSeq(b, 1, Len(b) - 1)) \o <<48>>), DNorm(Rev(DMulDigitRev(Rev(a), b[Len(b)] - 48, 0))))
+DLe(a, b) == LET x == DNorm(a) y == DNorm(b)
+             IN Len(x) < Len(y) \/ (Len(x) = Len(y) /\ (x = y \/ \E i \in 1..Len(x) : x[i] < y[i] /\ \A j \in 1..(i - 1) : x[j] = y[j]))
+UIntMax == <<52,50,57,52,57,54,55,50,57,53>>     \* 4294967295
+WideMult(st, u, colons) ==
+    IF u = 58 THEN (IF colons = 0 THEN Dec10(3600) ELSE Dec10(60))
+    ELSE Dec10(IF st = 4 THEN IntervalMult(u) ELSE VolumeMult(u))
+RECURSIVE WideSum(_, _, _)
+WideSum(st, c, colons) ==
+    IF c = <<>> THEN <<48>>
+    ELSE DAdd(DMul(Head(c)[1], WideMult(st, Head(c)[2], colons)),
+              WideSum(st, Tail(c), IF Head(c)[2] = 58 THEN colons + 1 ELSE colons))
+WideValue(st, c) == WideSum(st, c, 0)
+RECURSIVE WideText(_)
+WideText(c) == IF c = <<>> THEN <<>> ELSE Head(c)[1] \o (IF Head(c)[2] = 0 THEN <<>> ELSE <<Head(c)[2]>>) \o WideText(Tail(c))
+(* independent evaluation of a text of the language: its digit groups and separators *)
+WideDenote(st, t) == WideSum(st, Groups(t), 0)
+
+(* values at and around the largest count of each unit that still fits, 2^31, and 2^32 - 1 *)
+D(n) == Dec10(n)
+WidePool == <<
+    \* intervals (st 4)
+    << << <<D(136),121>> >>,                                                                   \* 136y
+       << <<D(136),121>>, <<D(70),100>>, <<D(6),104>>, <<D(28),109>>, <<D(15),115>> >>,      \* = 4294967295
+       << <<D(49710),100>> >>, << <<D(49710),100>>, <<D(6),58>>, <<D(28),58>>, <<D(15),0>> >>,   \* 49710d ; 49710d6:28:15
+       << <<D(1193046),104>> >>, << <<D(1193046),58>>, <<D(28),58>>, <<D(15),0>> >>,             \* 1193046h ; 1193046:28:15
+       << <<D(71582788),109>> >>, << <<D(71582788),109>>, <<D(15),115>> >>,                      \* 71582788m (15s)
+       << <<UIntMax,115>> >>, << <<UIntMax,0>> >>,                                               \* 4294967295s ; bare
+       << <<D(68),121>>, <<D(35),100>>, <<D(3),104>>, <<D(14),109>>, <<D(8),115>> >>,           \* = 2^31
+       << <<D(135),121>>, <<D(364),100>> >>, << <<D(24855),100>> >>, << <<D(596524),104>> >> >>,
+    \* volumes (st 5)
+    << << <<D(3),71>> >>, << <<D(3),103>>, <<D(1023),109>> >>,
+       << <<D(3),71>>, <<D(1023),77>>, <<D(1023),75>>, <<D(1023),66>> >>,                       \* = 4294967295
+       << <<D(4095),77>> >>, << <<D(4095),77>>, <<D(1023),75>>, <<D(1023),0>> >>,
+       << <<D(4194303),75>> >>, << <<D(4194303),107>>, <<D(1023),98>> >>,
+       << <<UIntMax,66>> >>, << <<UIntMax,0>> >>,
+       << <<D(2),71>> >>, << <<D(2047),77>>, <<D(1024),75>> >>, << <<D(2),71>>, <<D(1),0>> >>,  \* 2^31, 2^31, 2^31 + 1
+       << <<D(2048),77>> >>, << <<D(2097152),75>> >>, << <<D(3),71>>, <<D(512),77>> >> >>
+>>
+
 (* texts that are not values of the type under any reading (used for "an unparsable typed
    value is rejected") *)
 BadPool == <<
